@@ -428,8 +428,17 @@ def s_abs(a):
     return z3.If(a >= 0, a, -a)
 
 
+def _is_inf(v):
+    return isinstance(v, float) and (v == float('inf') or v == float('-inf'))
+
+
 def s_cmp(op, a, b):
     """op in '<', '<=', '>', '>=', '==', '!='"""
+    if (_is_inf(a) and is_sym(b)) or (_is_inf(b) and is_sym(a)):
+        # a real-valued term against +-infinity (e.g. `val < float('inf')` in an arg-min scan)
+        av = a if _is_inf(a) else 0.0
+        bv = b if _is_inf(b) else 0.0
+        return {'<': av < bv, '<=': av <= bv, '>': av > bv, '>=': av >= bv, '==': False, '!=': True}[op]
     if not (is_sym(a) or is_sym(b)):
         return {'<': a < b, '<=': a <= b, '>': a > b, '>=': a >= b, '==': a == b, '!=': a != b}[op]
     if op in ('==', '!=') and ((is_sym(a) and z3.is_bool(a)) and (isinstance(b, bool) or (is_sym(b) and z3.is_bool(b)))):
